@@ -73,7 +73,7 @@ class Check:
     need_model = False
     max_failures_per_chunk = 400
     isolate = True
-    watchdog_s = 20
+    watchdog_s = 10
 
     def observe(self, parser, mode, spec, rule, text, k):
         return modes.observe(parser, rule, text, k)
@@ -98,14 +98,24 @@ _SPECS: list = []
 _CHECK: Check | None = None
 
 
+_TIMEOUTS = [0]
+
+
 def _observe_all(check, parser, mode, spec, tab, stats):
     t = tab[mode] = {}
+    timeouts: dict = {}
     for rule, text, k in spec.cases():
+        if timeouts.get(rule, 0) >= 2 or _TIMEOUTS[0] >= 6:
+            # this start rule hangs in this mode: do not wait for the watchdog on every remaining input
+            t[(rule, text, k)] = ("timeout",)
+            continue
         try:
             with common.Watchdog(check.watchdog_s):
                 t[(rule, text, k)] = check.observe(parser, mode, spec, rule, text, k)
         except common.Watchdog.Timeout:
             t[(rule, text, k)] = ("timeout",)
+            timeouts[rule] = timeouts.get(rule, 0) + 1
+            _TIMEOUTS[0] += 1  # per worker process: after a few hangs the verdict is settled, stop waiting
         stats["evaluations"] += 1
 
 
